@@ -292,3 +292,12 @@ Theorem C19_source_effects2 :
   (forall q r k refs a b i, peq (src_store_response q r k refs a b i) (store_response q r k refs a b i)).
 Proof. exact tie_store_response. Qed.
 Print Assumptions C19_source_effects2.
+
+(* ... and InvalidateCache (which keys an invalidation deletes) *)
+From HC.Generated Require Import SrcInval.
+From HC.Proofs Require Import TieInval.
+Theorem C19_source_invalidation :
+  forall (A : Type) u h refs key (c c' : prog A), peq c c' ->
+    peq (src_invalidate_cache u h refs key c) (invalidate_cache u h refs key c').
+Proof. exact @tie_invalidate_cache. Qed.
+Print Assumptions C19_source_invalidation.
